@@ -180,7 +180,7 @@ func (e *Engine) addSpecFile(sf *SpecFile, pkg *types.Package) {
 
 func (e *Engine) newCtx(fn *ssa.Function, ct *Contract) *FnCtx {
 	return &FnCtx{eng: e, fn: fn, contract: ct, unknown: map[string]bool{}, used: map[string]bool{}, trusted: map[string]bool{},
-		factSeen: map[int]bool{}, ordinals: map[ssa.Instruction]int{}, callOrd: map[ssa.Instruction]string{}, ghostVals: map[string]*Val{}}
+		factSeen: map[int]bool{}, ordinals: map[ssa.Instruction]int{}, callOrd: map[ssa.Instruction]string{}, ghostVals: map[string]*Val{}, inlined: map[string]bool{}}
 }
 
 func (e *Engine) VerifyFunction(fn *ssa.Function, ct *Contract) (c *FnCtx) {
